@@ -133,7 +133,87 @@ type Index struct {
 	fieldOwner map[*types.Var]*types.Named
 }
 
+// nonNilSentinels: package-level variables declared `var ErrX = errors.New(...)` (or fmt.Errorf) that no function
+// assigns or takes the address of: their value is never nil. Keyed by object, so every (mutated) program has its own.
+var nonNilSentinels sync.Map
+
+// IsNonNilSentinel reports whether o is a package-level error sentinel that is never nil.
+func IsNonNilSentinel(o types.Object) bool {
+	if o == nil {
+		return false
+	}
+	_, ok := nonNilSentinels.Load(o)
+	return ok
+}
+
+func recordSentinels(p *load.Program) {
+	cand := map[types.Object]bool{}
+	for _, pk := range p.Sorted() {
+		for _, f := range pk.Files {
+			for _, d := range f.Decls {
+				gd, ok := d.(*ast.GenDecl)
+				if !ok || gd.Tok != token.VAR {
+					continue
+				}
+				for _, sp := range gd.Specs {
+					vs, ok := sp.(*ast.ValueSpec)
+					if !ok || len(vs.Values) != len(vs.Names) {
+						continue
+					}
+					for i, nm := range vs.Names {
+						call, ok := Unparen(vs.Values[i]).(*ast.CallExpr)
+						if !ok {
+							continue
+						}
+						fn := CalleeFunc(pk.Info, call)
+						if fn == nil || fn.Pkg() == nil {
+							continue
+						}
+						if (fn.Pkg().Path() == "errors" && fn.Name() == "New") || (fn.Pkg().Path() == "fmt" && fn.Name() == "Errorf") {
+							if o := pk.Info.Defs[nm]; o != nil {
+								cand[o] = true
+							}
+						}
+					}
+				}
+			}
+		}
+	}
+	if len(cand) == 0 {
+		return
+	}
+	for _, pk := range p.Sorted() {
+		for _, f := range pk.Files {
+			ast.Inspect(f, func(n ast.Node) bool {
+				drop := func(e ast.Expr) {
+					switch x := Unparen(e).(type) {
+					case *ast.Ident:
+						delete(cand, pk.Info.ObjectOf(x))
+					case *ast.SelectorExpr:
+						delete(cand, pk.Info.Uses[x.Sel])
+					}
+				}
+				switch x := n.(type) {
+				case *ast.AssignStmt:
+					for _, l := range x.Lhs {
+						drop(l)
+					}
+				case *ast.UnaryExpr:
+					if x.Op == token.AND {
+						drop(x.X)
+					}
+				}
+				return true
+			})
+		}
+	}
+	for o := range cand {
+		nonNilSentinels.Store(o, true)
+	}
+}
+
 func NewIndex(p *load.Program) *Index {
+	recordSentinels(p)
 	ix := &Index{Prog: p, byObj: map[*types.Func]*Func{}, pkgOf: map[*types.Package]*load.Package{}, methods: map[*types.Named][]*Func{}, fieldOwner: map[*types.Var]*types.Named{}}
 	for _, pk := range p.Sorted() {
 		ix.pkgOf[pk.Types] = pk
